@@ -1,6 +1,177 @@
-/-! line-protocol handlers (stub: filled in when the suite is built) -/
-namespace Apko.Driver.Tar
+import Apko.Model.Tar
+import Apko.Driver.FS
+/-! line-protocol handlers for corr:tar (C06)
 
-def handle (_args : List String) : Option String := none
+* `tar.layer <backend> <go-entries> <op> <op> …` — the operations (tokens of `Driver/FS.lean`, plus
+  `bigfile,<path>,<seed>,<n>,<perm>`) build the model state; answer
+  `impl` = the entry list `Model/Tar.lean: writeTar` emits for it, `spec` = verdict of the property's
+  oracle on *Go's* entry list (`extract go ≈ observeTree`, owner names from the image's passwd/group,
+  canonical order), `class` = the violated hypothesis of `C06.extract_writeTar_partial`.
+* `tar.check <go-entries> <observation> <passwd> <group>` — the same oracle on an observation of a file
+  system the harness built through the real build path (no model state).
+
+Entry: `path,kind,mode,uid,gid,uname,gname,size,linkname,major,minor,mtime,xattrs,content` (texts in hex,
+content as `h<hex>` up to 32 bytes, else `z<len>:<fnv64>`), entries joined by `;`.
+Observation record: `path,kind,mode,uid,gid,mtime,size,content,target,major,minor,xattrs,ident`.
+-/
+namespace Apko.Driver.Tar
+open Apko Apko.Path Apko.FS Apko.Tar
+open Apko.Driver.FS (T natS intS parseNat parseInt ux kvS parseKV sepJoin fnv parseOp backendOf)
+
+def kindS : Kind → Text
+  | .reg => T "0" | .link => T "1" | .symlink => T "2" | .char => T "3" | .block => T "4"
+  | .dir => T "5" | .fifo => T "6" | .other => T "?"
+
+def kindOf (s : String) : Kind :=
+  match s with
+  | "0" => .reg | "1" => .link | "2" => .symlink | "3" => .char | "4" => .block | "5" => .dir | "6" => .fifo
+  | _ => .other
+
+/-- short contents travel as they are, long ones as length and FNV-1a hash -/
+def contentKey (c : Text) : Text :=
+  if c.length ≤ 32 then 'h' :: hex c else 'z' :: (natS c.length ++ ':' :: fnv c)
+
+def entryS (e : Entry) : Text :=
+  sepJoin (T ",") [hex (joinNames e.path), kindS e.kind, natS e.mode, intS e.uid, intS e.gid, hex e.uname,
+    hex e.gname, natS e.size, hex e.linkname, natS e.devmajor, natS e.devminor, intS e.mtime, kvS e.xattrs,
+    contentKey e.content]
+
+def entriesS (es : List Entry) : Text :=
+  if es.any (·.kind = .other) then T "ERR" else sepJoin (T ";") (es.map entryS)
+
+/-- the content field is kept as its key: the oracle compares keys -/
+def parseEntry (s : String) : Option Entry :=
+  match s.splitOn "," with
+  | [p, k, m, u, g, un, gn, sz, ln, ma, mi, mt, xa, c] =>
+    some { path := parts (ux p), kind := kindOf k, mode := parseNat m, uid := parseInt u, gid := parseInt g,
+           uname := ux un, gname := ux gn, size := parseNat sz, linkname := ux ln, devmajor := parseNat ma,
+           devminor := parseNat mi, mtime := parseInt mt, xattrs := parseKV xa, content := c.toList }
+  | _ => none
+
+def parseEntries (s : String) : Option (List Entry) :=
+  if s.isEmpty then some [] else (s.splitOn ";").mapM parseEntry
+
+def parseObs (s : String) : Option (List Name × XNode) :=
+  match s.splitOn "," with
+  | [p, k, m, u, g, mt, sz, c, tg, ma, mi, xa, idn] =>
+    let a : Attrs :=
+      { kind := kindOf k, mode := parseNat m, uid := parseInt u, gid := parseInt g, mtime := parseInt mt,
+        size := parseNat sz, content := c.toList, target := ux tg, devmajor := parseNat ma,
+        devminor := parseNat mi, xattrs := parseKV xa }
+    some (parts (ux p), { attrs := a, ident := parseNat idn })
+  | _ => none
+
+def parseTree (s : String) : Option Tree :=
+  if s.isEmpty then some [] else (s.splitOn ";").mapM parseObs
+
+def keyTree (t : Tree) : Tree :=
+  t.map fun e => (e.1, { e.2 with attrs := { e.2.attrs with
+    content := if e.2.attrs.kind = .reg then contentKey e.2.attrs.content else [] } })
+
+def pathS (p : List Name) : String := hexS (joinNames p)
+
+def xerrS : XErr → String
+  | .duplicate p => "duplicate:" ++ pathS p
+  | .rootEntry => "root-entry"
+  | .orphan p => "parent-missing:" ++ pathS p
+  | .linkTarget p => "link-target-missing:" ++ pathS p
+  | .badKind p => "bad-kind:" ++ pathS p
+
+/-- the length a content key stands for -/
+def keyLen (k : Text) : Nat :=
+  match k with
+  | 'h' :: r => r.length / 2
+  | 'z' :: r => parseNat (String.ofList (r.takeWhile (· ≠ ':')))
+  | _ => 0
+
+/-- the property's oracle on an entry list against an observed tree (contents as keys) -/
+def verdict (es : List Entry) (obs : Tree) (users groups : List (Nat × Text)) : String :=
+  let paths := es.map (·.path)
+  if !strictlySorted paths then "fail:order" else
+  if !parentsFirst paths then "fail:parents-first" else
+  match extract es with
+  | .error e => "fail:extract:" ++ xerrS e
+  | .ok x =>
+    if x.map (·.1) ≠ obs.map (·.1) then "fail:paths" else
+    match (x.zip obs).find? (fun a => a.1.2.attrs ≠ a.2.2.attrs) with
+    | some a => "fail:attrs:" ++ pathS a.1.1
+    | none =>
+      if !decide (SameTree x obs) then "fail:hardlink-identity" else
+      match es.find? (fun e => e.kind = .reg ∧ e.size ≠ keyLen e.content) with
+      | some e => "fail:size:" ++ pathS e.path
+      | none =>
+        match es.find? (fun e => e.uname ≠ (nameOf users e.uid).getD [] ∨ e.gname ≠ (nameOf groups e.gid).getD []) with
+        | some e => "fail:names:" ++ pathS e.path
+        | none => "pass"
+
+/-- which hypothesis of `extract_writeTar_partial` the state violates -/
+def classOf (b : Backend) (fs : FS) : String :=
+  let W := walk fs
+  if !wfNodes fs then "unlisted" else
+  if !linksAfterTargets b fs then
+    -- F06a: the named target is (still) another name of the node but sorts later; F06c: it is gone or another node
+    let bad := (List.range W.length).filter fun k =>
+      match W[k]? with
+      | some w => !latOK b fs (W.take k) w
+      | none => false
+    let reorder := bad.all fun k =>
+      match W[k]? with
+      | some w =>
+        match hlOf b (fs.node w.2) w.1 with
+        | some l => W.any fun y => decide (y.1 = parts l) && decide (y.2 = w.2) && !(fs.node y.2).dir
+        | none => true
+      | none => true
+    if reorder then "F06a" else "F06c"
+  else if !linksRegistered b fs then "F06b"
+  else if !xattrsCaptured fs then "F06d"
+  else "unlisted"
+
+/-- deterministic filler for big files (the harness makes the same bytes) -/
+def bigData (seed n : Nat) : Text := (List.range n).map fun i => Char.ofNat ((i * 31 + seed) % 251)
+
+def parseOpX (tok : String) : Option Op :=
+  match tok.splitOn "," with
+  | ["bigfile", p, seed, n, perm] => some (.writeFile (ux p) (bigData (parseNat seed) (parseNat n)) (parseNat perm))
+  | _ => parseOp tok
+
+def runOps (c : Cfg) : List String → FS → FS
+  | [], fs => fs
+  | tok :: rest, fs =>
+    match parseOpX tok with
+    | none => runOps c rest fs
+    | some op => runOps c rest (step c fs op).1
+
+def layerReply (bk : Backend) (goEntries : String) (toks : List String) : String :=
+  let fs := runOps (Cfg.impl bk) toks FS.empty
+  let impl := String.ofList (entriesS (writeTar bk fs))
+  let spec :=
+    match parseEntries goEntries with
+    | none => "fail:unreadable"
+    | some es => verdict es (keyTree (observeTree bk fs)) (usersOf bk fs) (groupsOf bk fs)
+  impl ++ "\t" ++ spec ++ "\t" ++ (if spec = "pass" then "-" else classOf bk fs)
+
+/-- class of a failed end-to-end verdict, from the observation alone: a link entry whose target is a
+later path with the same identity is F06a; names of one identity that are not link entries are F06b -/
+def classOfObs (es : List Entry) (obs : Tree) : String :=
+  let identOf (p : List Name) : Option Nat := (obs.lookup p).map (·.ident)
+  let early := es.any fun e => e.kind = .link ∧
+    (let tp := parts e.linkname
+     identOf tp = identOf e.path ∧ (identOf tp).isSome ∧ decide (e.path < tp))
+  if early then "F06a" else "unlisted"
+
+def handle (args : List String) : Option String :=
+  match args with
+  | "tar.layer" :: b :: goEntries :: toks =>
+    match backendOf b with
+    | none => some "bad-backend\tbad-backend\t-"
+    | some bk => some (layerReply bk goEntries toks)
+  | ["tar.check", goEntries, obs, passwd, group] =>
+    match parseEntries goEntries, parseTree obs with
+    | some es, some o =>
+      let v := verdict es o (usersOfText (ux passwd)) (groupsOfText (ux group))
+      some ("-\t" ++ v ++ "\t" ++ (if v = "pass" then "-" else classOfObs es o))
+    | _, _ => some "-\tfail:unreadable\tunlisted"
+  | "tar.digest" :: _ => some "-\t-\tunlisted"
+  | _ => none
 
 end Apko.Driver.Tar
